@@ -72,7 +72,20 @@ def freeze(t):
 
 
 def coq(t) -> str:
-    """Print a term as Coq text."""
+    """Print a term as Coq text. Terms mirror the data, so deep data gives deep terms: the printer (harness code,
+    not the code under test) works under a recursion limit of its own."""
+    import sys
+    old = sys.getrecursionlimit()
+    if old >= 20000:
+        return _coq(t)
+    sys.setrecursionlimit(20000)
+    try:
+        return _coq(t)
+    finally:
+        sys.setrecursionlimit(old)
+
+
+def _coq(t) -> str:
     if t is None:
         return "None"
     if t is True:
@@ -84,15 +97,15 @@ def coq(t) -> str:
     if isinstance(t, N):
         return f"{t.k}%nat"
     if isinstance(t, P):
-        return f"({coq(t.a)}, {coq(t.b)})"
+        return f"({_coq(t.a)}, {_coq(t.b)})"
     if isinstance(t, Some):
-        return f"(Some {coq(t.x)})"
+        return f"(Some {_coq(t.x)})"
     if isinstance(t, list):
-        return "[" + "; ".join(coq(x) for x in t) + "]"
+        return "[" + "; ".join(_coq(x) for x in t) + "]"
     if isinstance(t, tuple):
         if len(t) == 1:
             return t[0]
-        return "(" + t[0] + " " + " ".join(coq(x) for x in t[1:]) + ")"
+        return "(" + t[0] + " " + " ".join(_coq(x) for x in t[1:]) + ")"
     raise TypeError(f"not a term: {t!r}")
 
 
